@@ -61,6 +61,9 @@ int main(void) {
     for (const char *h = hex; h[0] && h[1] && tn < sizeof tb; h += 2) { unsigned v; sscanf(h, "%2x", &v); tb[tn++] = (unsigned char)v; }
     if (tn && write(6, tb, tn) < 0) { /* reader gone: nothing to report to */ }
   }
-  if (sig) { kill(getpid(), sig); pause(); }
+  if (sig) {   /* the disposition may be inherited as 'ignored' (nohup, a background job of a non-interactive shell): die by it all the same */
+    sigset_t all; signal(sig, SIG_DFL); sigfillset(&all); sigprocmask(SIG_UNBLOCK, &all, 0);
+    kill(getpid(), sig); pause();
+  }
   _exit(code);
 }
